@@ -454,14 +454,28 @@ def _any(ex, path, args, kwargs, node, fn):
     return q_exists([k], b_and(0 <= k, k < a.shape[0]), a.at(k))
 
 
-@model("numpy.isfinite", doc="isfinite(x): elementwise; over the reals (S2) a ghost predicate `finite` of the element")
+FINITE = z3.Function("finite", z3.RealSort(), z3.BoolSort())
+
+
+@model("numpy.isfinite", doc="isfinite(x): elementwise uninterpreted predicate `finite` of the value (S2: reals carry no NaN/Inf, "
+                             "so finiteness of an *input* value is a ghost fact; both outcomes stay reachable)")
 def _isfinite(ex, path, args, kwargs, node, fn):
     a = args[0]
     fin = getattr(a, "finite", None)
-    if fin is None:
-        raise Unsupported("isfinite of an array without a finiteness ghost")
-    r = Arr(a.shape, lambda *k: fin(*k), "bool")
-    return r
+    if fin is not None:
+        return Arr(a.shape, lambda *k: fin(*k), "bool")
+    if isinstance(a, Arr):
+        r = Arr(a.shape, lambda *k: FINITE(to_z3(a.at(*k), "real")), "bool")
+        r.facts = list(getattr(a, "facts", []))
+        return r
+    return FINITE(to_z3(a, "real"))
+
+
+for _exc in ("RuntimeError", "ValueError", "TypeError", "Exception", "OSError", "NotImplementedError", "KeyError"):
+    def _mk(ex, path, args, kwargs, node, fn, _exc=_exc):
+        return Obj(_exc, {"is_exception": True, "cls_name": _exc})
+    LIB[_exc] = _mk
+    DOC[_exc] = "exception constructor: an object of that exception class"
 
 
 def install(ctx_lib):
